@@ -7,7 +7,8 @@ RULE = ("one contract family per case (reputation, audit, container size estimat
         "cur-6..cur+2, random}; crafted peers/container ids that make one key a byte-prefix of another; lengths 24/25/26, 31/32/33/34, "
         "storage keys of 64/65 bytes; signer sets: Alphabet, the right key, another key, Alphabet+key, nobody; truncated/garbled audit "
         "results; every third round leaves the quantifier (negative epochs, variable-length peers/container ids) and is compared with "
-        "the model only. Observations: read/list API results in storage order + decoded raw storage of the family after every "
+        "the model only. Every estimation case starts with a directed block: a put, listContainerSizes, getContainerSize(listed id) and "
+        "iterateContainerSizes at epochs 0 (empty encoding: id = cnr||cid), 1, 127, 128, 255, 256. Observations: read/list API results in storage order + decoded raw storage of the family after every "
         "mutating operation. distinct_nontrivial = distinct (operation, observation) pairs of HALTed invocations")
 PROPS = {
     "C20": dict(lean=["NeoFS.Props.C20"], driver="drv_stores", harness="stores", monitors=["C20"],
